@@ -182,6 +182,20 @@ def coq_eval_file(ctx, name, text, timeout=600):
     return rc == 0, out
 
 
+def coq_eval_batches(ctx, name, header, items, render, per_file=40, jobs=8, timeout=900):
+    """Evaluate many cases inside Coq in parallel.  `items` is a list; `render(chunk, offset)` returns the
+    Gallina text (definitions + Eval commands) for items[offset:offset+len(chunk)].
+    Returns the list of (ok, output) per file, in order."""
+    from concurrent.futures import ThreadPoolExecutor
+    chunks = [(i, items[i:i + per_file]) for i in range(0, len(items), per_file)]
+
+    def one(ch):
+        off, chunk = ch
+        return coq_eval_file(ctx, f"{name}_{off}", header + render(chunk, off), timeout=timeout)
+    with ThreadPoolExecutor(max_workers=jobs) as ex:
+        return list(ex.map(one, chunks))
+
+
 def coq_bad_indices(out):
     """parse the result of `Eval vm_compute in <list nat>` printed with huge width"""
     m = re.search(r"=\s*(\[[^\]]*\]|nil)\s*:\s*list nat", out.replace("\n", " "))
